@@ -85,6 +85,12 @@ def c03(scn, obs):
         who = scn.get('meta', {}).get('who', '?')
         tag = f'{point}:{who}'
         if ret is None:
+            # the harness itself still withholds a hook gate at the end of the scenario (a generated label sequence
+            # that stopped mid-flight): nothing can be said about this close
+            exited = {(o['hook'], o['n']) for o in obs if o.get('k') == 'gate_exit'}
+            if any(o.get('k') == 'hook' and o.get('held') and (o['hook'], o['n']) not in exited for o in obs):
+                first = False
+                continue
             bad.append((f'close-never-returns:{tag}', f'close() issued at [{point}] by task {c["task"]} never returned (state {obs[-1].get("state")})'))
             first = False
             continue
